@@ -181,6 +181,11 @@ class C12(object):
         nv = int(M.sum())
         vol = (thr - g.integers(0, 6, M.shape)).astype(np.float32)          # background at or below the threshold
         vol[M] = thr + 1 + g.permutation(nv)                                  # distinct intensities above it
+        if rnd.random() < 0.15 and (~M).any():
+            # dead / masked pixels of processed data: not-a-number is not above any threshold
+            bk = np.argwhere(~M)
+            for q in range(min(len(bk), rnd.randint(1, 3))):
+                vol[tuple(bk[rnd.randrange(len(bk))])] = np.nan
         omegas = (desc["omega0"] + desc["ostep"] * np.arange(nfr)).astype(np.float32)
         return kind, M, vol, omegas
 
